@@ -263,6 +263,34 @@ theorem lowerBoundRev_refines (L : Lawful I) (s : Seg T) (xs : List T) (hI : Inv
     refine ⟨b, ?_⟩
     rw [c, val_aggBwd I L, hI.den]; rfl
 
+/-- for **any** predicate (monotone or not, looking at anything): the search leaves a state that still represents
+    `xs`, and every value it shows to the predicate observes the aggregate of a range `[l, k]` of the plain list -/
+theorem lowerBound_probes (L : Lawful I) (s : Seg T) (xs : List T) (hI : Inv I s xs) (l : Nat) (f : T → Bool)
+    (hl : l < xs.length) :
+    Inv I (s.lowerBound I l f).2.2 xs ∧
+    ∀ kp ∈ (s.lowerBound I l f).2.1, l ≤ kp.1 ∧ kp.1 < xs.length ∧ I.val kp.2 = I.val (Spec.aggFwd I xs l kp.1) := by
+  have hn := hI.len
+  obtain ⟨d, w, sh, lg, _⟩ := lb_log I L f s.t I.dflt l 0 (s.n - 1) hI.wf hI.shaped (Nat.zero_le _) (by omega)
+  refine ⟨(show Inv I ⟨s.n, (lb I s.t I.dflt f l 0 (s.n - 1)).tree⟩ xs from
+    ⟨hn, hI.pos, w, sh, by rw [d, hI.den]⟩), ?_⟩
+  intro kp hk
+  obtain ⟨a, b, c⟩ := lg kp hk
+  refine ⟨a, by omega, ?_⟩
+  rw [c, val_aggFwd I L, hI.den]; rfl
+
+theorem lowerBoundRev_probes (L : Lawful I) (s : Seg T) (xs : List T) (hI : Inv I s xs) (r : Nat) (f : T → Bool)
+    (hr : r < xs.length) :
+    Inv I (s.lowerBoundRev I r f).2.2 xs ∧
+    ∀ kp ∈ (s.lowerBoundRev I r f).2.1, kp.1 ≤ r ∧ I.val kp.2 = I.val (Spec.aggBwd I xs kp.1 r) := by
+  have hn := hI.len
+  obtain ⟨d, w, sh, lg, _⟩ := lbr_log I L f s.t I.dflt r 0 (s.n - 1) hI.wf hI.shaped (Nat.zero_le _) (by omega)
+  refine ⟨(show Inv I ⟨s.n, (lbr I s.t I.dflt f r 0 (s.n - 1)).tree⟩ xs from
+    ⟨hn, hI.pos, w, sh, by rw [d, hI.den]⟩), ?_⟩
+  intro kp hk
+  obtain ⟨a, b, c⟩ := lg kp hk
+  refine ⟨b, ?_⟩
+  rw [c, val_aggBwd I L, hI.den]; rfl
+
 theorem debugLoop_spec (L : Lawful I) (n : Nat) (xs : List T) : ∀ (fuel i : Nat) (t : Tree T),
     Inv I ⟨n, t⟩ xs → i + fuel = n →
     (debugLoop I n t i fuel).1.map I.val = (xs.map I.val).drop i ∧ Inv I ⟨n, (debugLoop I n t i fuel).2⟩ xs := by
